@@ -38,6 +38,7 @@ arr_cmplx _convert_range_istft(const arr_cmplx& x, int nfft, StftRange range) {
 //------------------------------------------------------------------------------------------------------------------
 bool iscola(const arr_real& win, int noverlap, OverlapMethod method) {
     const auto nwin = win.size();
+    DSPLIB_ASSERT((noverlap >= 0) && (noverlap < nwin), "overlap must be in range [0 : window length)");
     const auto hop = nwin - noverlap;
 
     const int pw = method == OverlapMethod::Ola ? 1 : 2;
@@ -65,6 +66,7 @@ std::vector<arr_cmplx> stft(const arr_real& x, const arr_real& win, int overlap,
     std::vector<arr_cmplx> y;
     const int nx = x.size();
     const int nwin = win.size();
+    DSPLIB_ASSERT((overlap >= 0) && (overlap < nwin), "overlap must be in range [0 : window length)");
     const int hop = nwin - overlap;
     const int nseg = (nx - overlap) / (nwin - overlap);
     const auto fftp = FftPlanR(nfft);
